@@ -220,9 +220,19 @@ def coq_prepare():
 
 def coq_make(targets, timeout=1500):
     """make the given .vo targets (full .vo build).  Returns (ok, output, failing_file)."""
-    with Lock("coqmake"):
+    # no global build lock (a long proof in one file must not block everybody else): each invocation gets
+    # its own dependency file; only the (cheap) _CoqProject/Makefile generation is serialised
+    with Lock("coqprep"):
         coq_prepare()
-        rc, out, err, dt = run(["make", "-j%d" % NCPU, "-k"] + list(targets), cwd=COQ, timeout=timeout)
+    vd = ".Makefile.d.%d" % os.getpid()
+    try:
+        rc, out, err, dt = run(["make", "-j%d" % NCPU, "-k", "VDFILE=" + vd] + list(targets), cwd=COQ, timeout=timeout)
+    finally:
+        for f in (vd, vd + ".tmp"):
+            try:
+                os.unlink(os.path.join(COQ, f))
+            except OSError:
+                pass
     text = out + "\n" + err
     failing = None
     if rc != 0:
@@ -238,9 +248,14 @@ def coq_make(targets, timeout=1500):
 def coq_assumptions(prop_file):
     """Re-run coqc on a Properties file (cheap: deps are compiled) to capture Print Assumptions output.
     Returns list of (theorem, text)."""
-    with Lock("coqmake"):
-        args = coq_args()
-        rc, out, err, dt = run(["coqc"] + args + [prop_file], cwd=COQ, timeout=600)
+    # compile a private copy so that the shared .vo is not rewritten while others read it
+    d = scratch_dir("assum")
+    try:
+        base = os.path.basename(prop_file)
+        shutil.copy(os.path.join(COQ, prop_file), os.path.join(d, base))
+        rc, out, err, dt = run(["coqc"] + coq_args() + [base], cwd=d, timeout=900)
+    finally:
+        shutil.rmtree(d, ignore_errors=True)
     return rc, out + err
 
 
